@@ -20,8 +20,6 @@ from .rec_health import REC, Track
 
 PROP = "C14"
 VARIANTS = ["db", "web", "app", "db-nobackup", "web-db"]
-FS_ALL = ["FileScan", "FileCorrupt", "FileRepair", "FileRestore", "SqlDelete", "SqlEncrypt", "FolderCorrupt",
-          "FolderRepair", "FolderScan", "FolderRestore"]
 MC_ACTIONS = {
     "MC_HealthSw.cfg": ["MSwCompromise", "MSwFix", "MSwScan", "MSwStart", "MSwConnect", "MSwInstall", "MPowerOff", "MPowerOn",
                         "MFixDone", "MInstallDone", "MOsScanAny", "OsScanDone", "TickBegin", "TickEnd"],
@@ -296,6 +294,64 @@ def sig_fn(tr, event, stuck):
     return sig
 
 
+def situations(traces, res) -> Dict[str, Any]:
+    """What the accepted parts of the implementation traces went through (evidence only)."""
+    sit = {"compromise_during_fix": 0, "overwhelmed": 0, "recovered_from_overwhelmed": 0, "scan_request_while_scanning": 0,
+           "power_off_with_operation_pending": 0, "fix_done_repairs_file": 0, "node_scan_and_fix_done_in_one_tick": 0}
+    when: Dict[str, Dict[str, int]] = {}
+    for tr, (reached, length) in zip(traces, res["results"]):
+        c = tr["cfg"]
+        prev = {"a": c["a"], "fh": c["fh"]}
+        pend = {"scan": None, "rest": None, "os": None, "fix": None}     # ticks (ON) since the request
+        on = True
+        tick_phases: List[str] = []
+        for e in tr["ev"][: max(0, reached - 1)]:
+            ev = e["ev"]
+            if ev == "SwCompromise" and prev["a"] == "FIXING" and e["a"] == "COMPROMISED":
+                sit["compromise_during_fix"] += 1
+            if e["a"] == "OVERWHELMED" and prev["a"] != "OVERWHELMED":
+                sit["overwhelmed"] += 1
+            if prev["a"] == "OVERWHELMED" and e["a"] == "GOOD":
+                sit["recovered_from_overwhelmed"] += 1
+            if ev == "FolderScanReq" and e["ok"] and pend["scan"] is not None:
+                sit["scan_request_while_scanning"] += 1
+            if ev == "PowerOff" and any(v is not None for v in pend.values()):
+                sit["power_off_with_operation_pending"] += 1
+            if ev == "FixDone" and e["fh"] != prev["fh"]:
+                sit["fix_done_repairs_file"] += 1
+            if ev == "TickBegin":
+                tick_phases = []
+            if ev in ("OsScanDone", "FixDone", "FoScanDone", "RestoreDone"):
+                tick_phases.append(ev)
+                if "OsScanDone" in tick_phases and "FixDone" in tick_phases and ev in ("OsScanDone", "FixDone"):
+                    sit["node_scan_and_fix_done_in_one_tick"] += 1
+            # timing drift: on which tick (counted while ON, from the request that started the clock) did it complete
+            for kind, rq, dn, dur in (("scan", "FolderScanReq", "FoScanDone", c["scan"]), ("rest", "FolderRestoreReq", "RestoreDone", c["rest"]),
+                                      ("os", "OsScanReq", "OsScanDone", c["node"]), ("fix", "SwFix", "FixDone", c["fix"])):
+                if ev == rq and e["ok"] and (pend[kind] is None or kind in ("os", "fix")):
+                    pend[kind] = 0
+                if ev == dn and pend[kind] is not None:
+                    k = f"{kind}: duration {dur} -> tick {pend[kind] + 1}"
+                    when.setdefault(kind, {})[k] = when.setdefault(kind, {}).get(k, 0) + 1
+                    pend[kind] = None
+            if ev == "SwCompromise" and e["a"] == "COMPROMISED":
+                pend["fix"] = None
+            if ev in ("PowerOff", "PowerOn"):
+                on = e["on"]
+            if ev == "TickEnd" and e["on"]:
+                for kind in pend:
+                    if pend[kind] is not None:
+                        pend[kind] += 1
+            prev = {"a": e["a"], "fh": e["fh"]}
+    return {"situations": sit, "completion_tick_by_duration (drift report, DESIGN 5.2)": when}
+
+
+# events that the implementation traces must contain for the binding not to be vacuous (thorough tier)
+REQUIRED_EVENTS = ["SwCompromise", "SwFix", "SwScan", "SwConnect", "FileScan", "FileCorrupt", "FileRepair", "FileRestore",
+                   "FolderScanReq", "FolderRestoreReq", "FolderCorrupt", "FolderRepair", "OsScanReq", "SqlDelete", "SqlEncrypt",
+                   "PowerOff", "PowerOn", "TickBegin", "OsScanDone", "FixDone", "FoScanDone", "RestoreDone", "TickEnd", "Other"]
+
+
 def main(tier: str, seed: int) -> int:
     chk = common.Check(PROP, "model_checking", tier, seed)
     rng = random.Random(seed)
@@ -347,6 +403,11 @@ def main(tier: str, seed: int) -> int:
     sres = tlc.validate("HealthTrace", straces, chunk=40)
     common.judge_traces(chk, "Health", straces, sres, sig_fn, label="scenario")
     # ---- evidence ---------------------------------------------------------------------------------------
+    missing = [e for e in REQUIRED_EVENTS if not chk.cov.get("impl_events", {}).get(e)]
+    if missing and not quick:
+        raise tlc.TLCError(f"vacuous binding: no accepted implementation event of kind {missing}")
+    chk.cov["host"] = situations(traces, res)
+    chk.cov["scenario"] = situations(straces, sres)
     drift: Dict[str, int] = {}
     for tr in traces + straces:
         for kx, v in (tr["meta"].get("drift") or {}).items():
@@ -371,5 +432,7 @@ def main(tier: str, seed: int) -> int:
         "Folder._restoring_timestep, Software.scan / FileSystem.scan called from the tick); a folder restore that has nothing "
         "to write is marked from restore_countdown reaching 0",
         "files are followed by (folder name, file name); node power durations are 0 in the host runs",
+        "SwStart (UNUSED -> GOOD), SwInstall / InstallDone are model actions without a host stimulus (software is started when "
+        "the scenario is built); they are matched only if a scenario-scale run produces them",
     ]
     return chk.finish()
